@@ -138,6 +138,11 @@ impl Board {
     }
 
     pub fn push_en_passant_target(&mut self, target_square: Bitboard) -> Bitboard {
+        // Only the current en passant target is part of the position, so the
+        // previous target's contribution must leave the hash before the new one enters.
+        let previous_target_square = self.move_info.peek_en_passant_target();
+        self.position_info
+            .update_zobrist_hash_toggle_en_passant_target(previous_target_square);
         self.position_info
             .update_zobrist_hash_toggle_en_passant_target(target_square);
         self.move_info.push_en_passant_target(target_square)
@@ -151,6 +156,10 @@ impl Board {
         let target_square = self.move_info.pop_en_passant_target();
         self.position_info
             .update_zobrist_hash_toggle_en_passant_target(target_square);
+        // Restore the contribution of the target that is current again.
+        let restored_target_square = self.move_info.peek_en_passant_target();
+        self.position_info
+            .update_zobrist_hash_toggle_en_passant_target(restored_target_square);
         target_square
     }
 
